@@ -484,3 +484,642 @@ def none_is_error(prog, sl, eff, variant):
                 if always_through(f, cd.target, d[1], f.return_blocks()):
                     return carried_out(prog, [l.call for l in reversed(eff.chain)])
     return False, 'no None arm returning Err(%s)' % variant
+
+
+# ====================================================================================================================
+# R6 — how a collection is built from another collection
+#
+#   Build            normal form of "a Vec built from the elements of a collection", whether it is written as an iterator
+#                    pipeline that is collected (`xs.iter().filter(p).map(f).collect()`), or as a local Vec that is only
+#                    ever pushed to inside a loop over (a pipeline over) xs: the base collection, the element that is
+#                    added in terms of one element of the base collection, the per-element conditions under which it is
+#                    added, and everything that makes the result something else than "one entry per element that passes the
+#                    conditions, in order" (positional truncation, reordering, early exit, unknown adapters)
+#   Payloads         the alternatives (decisions, value, frame) of a success payload: locals assigned in several branches
+#                    are split per assignment, private helpers are entered through `?` / and_then / map with their
+#                    parameters bound, early `return Ok(..)` is one alternative per success site
+#   truth(...)       when does a boolean closure / private helper return true: the variant decisions that lead to `true`,
+#                    and whether they are also sufficient (every other way out passes a complementary decision)
+#   success_implies  the success of every public entry point that runs a call implies that call's Result was Ok
+# ====================================================================================================================
+from .lib.discard import ok_on_success
+from .lib.guards import edge_dominates
+from .lib.effects import success_sites, find_loops
+
+TRANSPARENT_STAGES = {IT + 'cloned', IT + 'copied', IT + 'by_ref', IT + 'peekable', IT + 'fuse', IT + 'inspect'}
+REVERSING = {IT + 'rev', 'std::iter::DoubleEndedIterator::rev'}
+STAGES = {IT + 'map', IT + 'filter', IT + 'filter_map'}
+TRY_BRANCH = 'std::ops::Try::branch'
+SINGLE = {IT + x for x in ('next', 'last', 'nth', 'find', 'find_map', 'max', 'min', 'max_by', 'min_by', 'max_by_key', 'min_by_key', 'next_back', 'nth_back')}
+
+
+def opaque_names(prog, always=()):
+    """functions that stay calls in normal forms: everything except the private (module-level) functions of the
+    workspace, which are transparent; `always` are the anchors of the rule"""
+    keep = {p for p, f in prog.fns.items() if f.kind != 'Closure' and f.vis != 'restricted'}
+    keep.update(always)
+    return frozenset(keep)
+
+
+class Keep:
+    """one per-element condition of a Build
+       'variant'  subject's variant is in outcome (enum)          from a loop body / a boolean predicate
+       'some'     value (an Option) is Some                        from filter_map
+       'bool'     value is outcome                                 a tested boolean that is not a known predicate
+       'pred'     an opaque predicate (filter closure that could not be decided)"""
+
+    def __init__(self, kind, outcome=None, subject=None, enum=None, value=None, origin=None, total=True):
+        self.kind, self.outcome, self.subject, self.enum, self.value, self.origin, self.total = kind, outcome, subject, enum, value, origin, total
+
+    def __repr__(self):
+        from .lib.value import vstr
+        if self.kind == 'variant':
+            return '%s is %s' % (vstr(self.subject)[:90], '|'.join(sorted(self.outcome)))
+        if self.kind == 'some':
+            return '%s is Some' % vstr(self.value)[:90]
+        if self.kind == 'bool':
+            return '%s == %s' % (vstr(self.value)[:90], self.outcome)
+        return 'predicate %s' % (vstr(self.value)[:90] if self.value is not None else '?')
+
+
+class Build:
+    def __init__(self, kind, frame=None):
+        self.kind = kind            # 'empty' | 'built' | 'opaque'
+        self.frame = frame          # function the building code lives in
+        self.coll = None            # base collection (entry terms)
+        self.x = None               # the symbolic element of the base collection
+        self.elem = None            # what is added per element, in terms of x
+        self.conds = []             # [Keep]
+        self.problems = []          # [(severity 'violated'|'unproven', text)]
+        self.sink = None            # the collecting Call (pipeline) — its result type says whether it short-circuits
+        self.push = None            # the push Call (loop form)
+        self.form = None            # 'pipeline' | 'loop'
+        self.where = None
+        self.sites = set()          # creation sites of the collection (Vec::new / collect calls)
+
+    def bad(self, sev, text):
+        self.problems.append((sev, text))
+        return self
+
+
+def apply_stage(sl, clv, arg, keep):
+    """result of calling the closure / fn item of an adapter stage with one element; opaque functions stay calls"""
+    clv = peel(clv)
+    if clv[0] == 'fnitem' and (clv[1] in keep or clv[1] not in sl.prog.fns):
+        return ('call', clv[1], (arg,), None)
+    return apply1(sl, clv, arg, keep)
+
+
+def pipeline(prog, sl, v, keep, b=None):
+    """Build of an iterator expression / collected iterator expression (value level)"""
+    b = b or Build('built')
+    b.form = b.form or 'pipeline'
+    chain = []
+    x = v
+    for _ in range(40):
+        while x[0] in ('unwrap', 'updated'):
+            x = x[1]
+        if x[0] != 'call' or not x[2]:
+            break
+        name, args = x[1], x[2]
+        if name in OK_PRESERVING:
+            x = args[0]
+        elif name in iters.COLLECTING:
+            if b.sink is None and site_of(x) is not None and site_of(x)[0] in prog.fns:
+                b.sink = prog.fns[site_of(x)[0]].call_at(site_of(x)[1])
+            if site_of(x) is not None:
+                b.sites.add(site_of(x))
+            x = args[0]
+        elif name in STAGES and len(args) == 2:
+            chain.append((name, args[1]))
+            x = args[0]
+        elif name in TRANSPARENT_STAGES:
+            x = args[0]
+        elif name in REVERSING:
+            b.bad('violated', 'the elements are taken in reverse order (%s)' % name.split('::')[-1])
+            x = args[0]
+        elif name in iters.TRUNCATING:
+            b.bad('violated', 'elements are dropped by position: %s cuts the iteration short / skips a prefix, every later element is lost' % name.split('::')[-1])
+            if len(args) == 2 and name in iters.LAZY_WITH_CLOSURE:
+                chain.append((name, args[1]))
+            x = args[0]
+        elif iters._is_source(name) and name.endswith(iters.SAME_ELEMS) and len(args) == 1:
+            x = args[0]
+        elif name in SINGLE:
+            b.bad('violated', 'a single element is taken out of the iteration (%s): the others are lost' % name.split('::')[-1])
+            x = args[0]
+        elif name.startswith(('std::iter::', 'core::iter::')):
+            b.bad('unproven', 'iterator adapter %s is not modelled' % name)
+            for y in walk(x):
+                if y[0] == 'call' and y[1] in iters.TRUNCATING:
+                    b.bad('violated', 'elements are dropped by position: %s cuts the iteration short / skips a prefix, every later element is lost' % y[1].split('::')[-1])
+            break
+        else:
+            break
+    b.coll = x
+    b.x = iters.elem_of(x)
+    e = b.x
+    for name, clv in reversed(chain):
+        r = apply_stage(sl, clv, e, keep)
+        if r is None:
+            b.bad('unproven', 'the closure of %s is not a known body' % name.split('::')[-1])
+            break
+        if name == IT + 'map':
+            e = r
+        elif name == IT + 'filter':
+            b.conds.extend(predicate(prog, sl, clv, r, e, keep))
+        elif name in (IT + 'filter_map', IT + 'map_while'):
+            b.conds.append(Keep('some', value=r, origin=name))
+            e = sl.mk_unwrap(r, 1)
+        else:
+            b.conds.append(Keep('pred', value=r, origin=name))
+    b.elem = e
+    return b
+
+
+# ---- boolean predicates ----------------------------------------------------------------------------------------------
+def _reaches_end_avoiding(fn, start, vias, ends, skip):
+    """some path start -> ends that neither passes a block of vias nor uses an edge of skip"""
+    seen, work = set(), [start]
+    while work:
+        blk = work.pop()
+        if blk in seen or blk in vias:
+            continue
+        seen.add(blk)
+        if blk in ends:
+            return True
+        for t in fn.succs(blk):
+            if (blk, t) not in skip:
+                work.append(t)
+    return False
+
+
+def infeasible_edges(fn):
+    """`otherwise` edges of switches over an enum discriminant whose variants are all listed: never taken (rustc shares the
+    target with a real arm instead of an `unreachable` block after simplification)"""
+    from .lib.guards import _discr_info
+    out = set()
+    for sb, blk in enumerate(fn.blocks):
+        t = blk['t']
+        if t['t'] != 'switch':
+            continue
+        di = _discr_info(fn, sb, t['o'])
+        if di and di[1]:
+            listed = {v for v, _ in t['targets']}
+            if all(v in listed for v in di[1]) and all(tb != t['else'] for _, tb in t['targets']):
+                out.add((sb, t['else']))
+    return out
+
+
+def conditions_x(fn, bb, sl):
+    """guards.conditions on the CFG without the infeasible `otherwise` edges (variant decisions only need this)"""
+    from .lib.guards import Cond, _discr_info
+    dead = infeasible_edges(fn)
+    if not dead:
+        return conditions(fn, bb, sl)
+
+    def reach_without(edge):
+        seen, work = set(), [0]
+        while work:
+            blk = work.pop()
+            if blk in seen:
+                continue
+            seen.add(blk)
+            for t in fn.succs(blk):
+                if (blk, t) != edge and (blk, t) not in dead:
+                    work.append(t)
+        return seen
+    if bb not in reach_without(None):
+        return conditions(fn, bb, sl)
+    out = []
+    base = {(c.sw_bb, c.target): c for c in conditions(fn, bb, sl)}
+    for sb, blk in enumerate(fn.blocks):
+        t = blk['t']
+        if t['t'] != 'switch':
+            continue
+        by_target = {}
+        for v, tb in t['targets']:
+            by_target.setdefault(tb, []).append(v)
+        by_target.setdefault(t['else'], []).append('else')
+        for tb, labels in by_target.items():
+            if (sb, tb) in dead:
+                continue
+            if (sb, tb) in base:
+                out.append(base[(sb, tb)])
+                continue
+            if bb in reach_without((sb, tb)):
+                continue
+            di = _discr_info(fn, sb, t['o'])
+            if not di:
+                continue    # (boolean / integer decisions: only what guards.conditions reports)
+            place, vmap, enum = di
+            listed = [v for v, _ in t['targets']]
+            names = set()
+            for lab in labels:
+                if lab == 'else':
+                    names |= {n for v, n in vmap.items() if v not in listed}
+                else:
+                    names.add(vmap.get(lab, str(lab)))
+            out.append(Cond(fn, sb, tb, 'variant', frozenset(names), sl.operand(fn, t['o']), sl.place(fn, place), enum))
+    return out
+
+
+def truth(prog, sl, g, m, keep, depth=0, local=0, want=True):
+    """when does the boolean function / closure g return true: [([Keep 'variant' ..], total)] — one entry per
+    `true` result with the variant decisions dominating it (subjects substituted by m); total = every way to return
+    without passing one of the `true` results takes a complementary edge of one of those decisions (so the decisions are
+    sufficient, not only necessary).  `!x` is x with the roles of true and false exchanged.  None when g is not of that
+    shape."""
+    from .lib.value import subst
+    if depth > 6:
+        return None
+    defs = g.whole_defs(local)
+    if len(defs) == 1 and defs[0][0] == 'stmt' and defs[0][3]['r'] == 'un' and defs[0][3].get('op') == 'Not':
+        pl = op_place(defs[0][3]['o'])
+        if pl and not pl[1:]:
+            return truth(prog, sl, g, m, keep, depth + 1, pl[0], not want)
+        return None
+    if len(defs) == 1 and defs[0][0] == 'stmt' and defs[0][3]['r'] == 'use' and op_place(defs[0][3]['o']) and not op_place(defs[0][3]['o'])[1:]:
+        return truth(prog, sl, g, m, keep, depth + 1, op_place(defs[0][3]['o'])[0], want)
+    dead = infeasible_edges(g)
+    if len(defs) == 1 and defs[0][0] == 'call':
+        c = defs[0][3]
+        hs = [h for h in prog.callee_fns(c) if h.kind != 'Closure' and h.path not in keep]
+        if len(hs) == 1 and not _reaches_end_avoiding(g, 0, {c.bb}, set(g.return_blocks()), dead):
+            h = hs[0]
+            m2 = {(h.path, i): subst(sl.operand(g, a), m, sl) for i, a in enumerate(c.args) if i < h.argc}
+            return truth(prog, sl, h, m2, keep, depth + 1, 0, want)
+        return None
+    trues, out = [], []
+    for d in defs:
+        if not (d[0] == 'stmt' and d[3]['r'] == 'use' and isinstance(d[3].get('o'), dict) and 'k' in d[3]['o']):
+            return None
+        val = d[3]['o']['k'].get('v')
+        if not (isinstance(val, dict) and 'bool' in val):
+            return None
+        if val['bool'] == want:
+            trues.append(d)
+    if not trues:
+        return None
+    skip = set(dead)
+    vias = {d[1] for d in trues}
+    for d in trues:
+        ks = []
+        for cd in conditions_x(g, d[1], sl):
+            if cd.kind == 'variant' and cd.subject is not None:
+                ks.append(Keep('variant', cd.outcome, subst(cd.subject, m, sl), cd.enum, origin=g.path))
+            elif cd.kind == 'bool':
+                ks.append(Keep('bool', cd.outcome, value=subst(cd.value, m, sl), origin=g.path))
+            else:
+                ks.append(Keep('pred', value=subst(cd.value, m, sl), origin=g.path))
+            skip |= {(cd.sw_bb, t) for t in g.succs(cd.sw_bb) if t != cd.target}
+        out.append(ks)
+    total = not _reaches_end_avoiding(g, 0, vias, set(g.return_blocks()), skip)
+    return [(ks, total) for ks in out]
+
+
+def predicate(prog, sl, clv, applied, e, keep):
+    """Keep conditions of `filter(clv)` for element e"""
+    clv = peel(clv)
+    g = prog.fns.get(clv[1]) if clv[0] in ('closure', 'fnitem') else None
+    if g is None:
+        return [Keep('pred', value=applied)]
+    if clv[0] == 'closure':
+        m = {(g.path, 1): e}
+        for i, uv in enumerate(clv[2]):
+            m[('upvar', g.path, i)] = uv
+    else:
+        m = {(g.path, 0): e}
+    t = truth(prog, sl, g, m, keep)
+    if t is None:
+        return [Keep('pred', value=applied, origin=g.path)]
+    if len(t) == 1:
+        ks, total = t[0]
+        for k in ks:
+            k.total = total
+        return ks
+    # several `true` results: alternatives that differ in one variant decision on the same subject are one decision
+    base = t[0][0]
+    if all(len(ks) == len(base) for ks, _ in t):
+        merged = []
+        for i, k in enumerate(base):
+            col = [ks[i] for ks, _ in t]
+            if all(c.kind == 'variant' and k.kind == 'variant' and canon(c.subject) == canon(k.subject) for c in col):
+                merged.append(Keep('variant', frozenset().union(*[c.outcome for c in col]), k.subject, k.enum, origin=g.path, total=all(tt for _, tt in t)))
+            else:
+                return [Keep('pred', value=applied, origin=g.path)]
+        return merged
+    return [Keep('pred', value=applied, origin=g.path)]
+
+
+# ---- a local Vec filled in a loop ---------------------------------------------------------------------------------------
+def loop_build(prog, sl, E, fn, site, m, keep):
+    """Build of the Vec created at `site` in fn (m: fn's parameters in entry terms)"""
+    from .lib.value import subst
+    b = Build('built', fn)
+    b.form = 'loop'
+    b.sites.add(site)
+    app, reads, other = vec_uses(prog, sl, fn, site)
+    if not app and not other:
+        b.kind = 'empty'
+        return b
+    if other or len(app) != 1 or app[0][2] != 'push' or app[0][1] is not fn:
+        b.kind = 'opaque'
+        return b.bad('unproven', 'the vector is filled by %d append call(s) and handed to %s: not a single push in a loop' % (len(app), sorted({c.name or '?' for c in other}) or 'nothing else'))
+    c = app[0][0]
+    b.push = c
+    b.where = c.where()
+    loops = [L for L in E.loops(fn) if c.bb in L.body and c.bb != L.header]
+    if len(loops) != 1 or loops[0].collection is None:
+        b.kind = 'opaque'
+        return b.bad('unproven', 'the push is inside %d loops' % len(loops))
+    L = loops[0]
+    # the function can only succeed by running the loop to exhaustion
+    ex = getattr(L, 'exhaust', None)
+    sites = {s.bb for s in success_sites(fn)}
+    if ex is None or _reaches_end_avoiding(fn, L.header, set(), sites, {ex}):
+        b.bad('violated', 'the loop can be left before the collection is exhausted and the function still succeeds (break / early return of a success)')
+    pipeline(prog, sl, L.collection, keep, b)
+    b.form = 'loop'
+    b.sink = None
+    repl = {'__repl__': [(canon(iters.elem_of(L.collection)), b.elem)]}
+    repl.update(m)
+    b.elem = reduce(sl, subst(sl.operand(fn, c.args[1]), repl, sl), keep)
+    nxt = ex[0] if ex else None
+    skip = set()
+    for cd in conditions(fn, c.bb, sl):
+        if cd.sw_bb not in L.body or cd.sw_bb == nxt:
+            continue
+        skip |= {(cd.sw_bb, t) for t in fn.succs(cd.sw_bb) if t != cd.target}
+        if cd.kind == 'variant' and cd.subject is not None:
+            b.conds.append(Keep('variant', cd.outcome, reduce(sl, subst(cd.subject, repl, sl), keep), cd.enum, origin=fn.path))
+        elif cd.kind == 'bool':
+            val = subst(cd.value, repl, sl)
+            ks = None
+            if cd.outcome is True and val[0] == 'call' and val[1] in prog.fns and val[1] not in keep and len(val[2]) <= prog.fns[val[1]].argc:
+                h = prog.fns[val[1]]
+                t = truth(prog, sl, h, {(h.path, i): a for i, a in enumerate(val[2])}, keep)
+                if t is not None and len(t) == 1:
+                    ks = t[0][0]
+                    for k in ks:
+                        k.total = t[0][1]
+            b.conds.extend(ks if ks is not None else [Keep('bool', cd.outcome, value=val, origin=fn.path)])
+        else:
+            b.conds.append(Keep('pred', value=subst(cd.value, repl, sl), origin=fn.path))
+    # every iteration that passes the conditions pushes: from the top of the body no latch is reached around the push
+    # except over a complementary edge of one of the conditions
+    body_entry = [t for t in fn.succs(nxt) if t in L.body] if nxt is not None else []
+    for t in body_entry:
+        if _reaches_end_avoiding(fn, t, {c.bb}, set(L.latches), skip | ({ex} if ex else set())):
+            b.bad('unproven', 'an iteration can reach the next one without the push and without failing one of the recognised conditions (compound condition / continue)')
+    if m:
+        b.coll = subst(b.coll, m, sl)
+    return b
+
+
+# ---- alternatives of a success payload ---------------------------------------------------------------------------------
+class Alt:
+    def __init__(self, guards, value, frame, m, raw):
+        self.guards, self.value, self.frame, self.m, self.raw = guards, value, frame, m, raw
+
+
+class Payloads:
+    """[(decisions, value)] alternatives of a value that is the success payload of something, in the entry function's
+    terms; the same table comes out of
+        let d = if p.is_file() { read(p).and_then(|x| helper(&x))? } else { Vec::new() };
+        let d = helper2(&p)?;     with  fn helper2(p) { if !p.is_file() { return Ok(Vec::new()) } .. helper(&read(p)?) }
+    decisions are (True|False, boolean value) and ('some'|'none', option value)"""
+
+    def __init__(self, prog, sl, keep):
+        self.prog, self.sl, self.keep = prog, sl, keep
+        self.frames = {}        # path -> Fn: every function a value was followed through
+        self.sites = set()      # call sites of the helpers that were entered
+
+    def _guards(self, fn, bb, m):
+        from .lib.value import subst
+        gs = []
+        for c in conditions(fn, bb, self.sl):
+            if c.kind == 'bool':
+                gs.append((c.outcome, subst(c.value, m, self.sl) if m else c.value))
+            elif c.kind == 'variant' and c.subject is not None and c.enum == 'std::option::Option' and len(c.outcome) == 1:
+                gs.append(('some' if 'Some' in c.outcome else 'none', subst(c.subject, m, self.sl) if m else c.subject))
+        return tuple(gs)
+
+    def of_operand(self, fn, operand, m=None, guards=(), depth=0):
+        m = m or {}
+        self.frames[fn.path] = fn
+        pl = op_place(operand)
+        if pl and not pl[1:]:
+            local = origin_local(fn, pl[0])
+            defs = fn.whole_defs(local)
+            if len(defs) >= 2 and not (1 <= local <= fn.argc):
+                out = []
+                for d in defs:
+                    if d[0] == 'call' and d[3].decl and d[3].decl.endswith('FromResidual::from_residual'):
+                        continue
+                    out.extend(self.of_value(fn, self.sl._def_value(fn, d, set(), 0), m, guards + self._guards(fn, d[1], m), depth + 1))
+                return out
+        return self.of_value(fn, self.sl.operand(fn, operand), m, guards, depth)
+
+    def returned(self, h, m, guards, depth):
+        """alternatives of the success payload of what h returns"""
+        out = []
+        local = origin_local(h, 0)
+        for d in h.whole_defs(local):
+            gs = guards + self._guards(h, d[1], m)
+            if d[0] == 'call':
+                if d[3].decl and d[3].decl.endswith('FromResidual::from_residual'):
+                    continue
+                v = self.sl._def_value(h, d, set(), 0)
+                out.extend(self.of_value(h, self.sl.mk_unwrap(v, 1), m, gs, depth + 1))
+            elif d[0] == 'stmt':
+                rv = d[3]
+                if rv['r'] == 'agg' and rv.get('variant') in ('Err', 'None') and rv.get('adt') in ('std::result::Result', 'std::option::Option'):
+                    continue
+                if rv['r'] == 'agg' and rv.get('variant') in ('Ok', 'Some') and rv.get('adt') in ('std::result::Result', 'std::option::Option') and len(rv['ops']) == 1:
+                    out.extend(self.of_operand(h, rv['ops'][0], m, gs, depth + 1))
+                else:
+                    v = self.sl._def_value(h, d, set(), 0)
+                    out.extend(self.of_value(h, self.sl.mk_unwrap(v, 1), m, gs, depth + 1))
+        return out
+
+    def of_value(self, fn, v, m, guards, depth=0):
+        from .lib.value import subst
+        if v[0] == 'unwrap':
+            v = self.sl.mk_unwrap(v[1], 1)
+        c = core(v)
+        if depth < 10 and c[0] == 'call' and c[1] in self.prog.fns and c[1] not in self.keep and v[0] == 'unwrap':
+            h = self.prog.fns[c[1]]
+            if h.kind != 'Closure' and h.ret.startswith(('std::result::Result', 'std::option::Option')):
+                m2 = {(h.path, i): (subst(a, m, self.sl) if m else a) for i, a in enumerate(c[2]) if i < h.argc}
+                alts = self.returned(h, m2, guards, depth + 1)
+                if alts:
+                    self.frames[h.path] = h
+                    if site_of(c) is not None:
+                        self.sites.add(site_of(c))
+                    return alts
+        return [Alt(guards, subst(v, m, self.sl) if m else v, fn, m, v)]
+
+
+def build_of(prog, sl, E, alt, keep):
+    """Build of one payload alternative"""
+    c = core(alt.raw)
+    st = site_of(c)
+    if c[0] == 'call' and c[1] in VEC_NEW and st is not None:
+        if alt.frame is not None and st[0] == alt.frame.path:
+            return loop_build(prog, sl, E, alt.frame, st, alt.m or {}, keep)
+        return Build('opaque').bad('unproven', 'a vector created in %s, seen from another function' % st[0])
+    if c == DEFAULT or (c[0] == 'call' and c[1].endswith('Default::default') and not c[2]):
+        return Build('empty', alt.frame)
+    if c[0] == 'call' and (c[1] in iters.COLLECTING or c[1].startswith(IT)):
+        return pipeline(prog, sl, alt.value, keep)
+    return Build('opaque').bad('unproven', 'not a collected iterator nor a vector filled in a loop')
+
+
+# ---- nothing else touches the collection -------------------------------------------------------------------------------
+HARMLESS_MUT = ('::reserve', '::reserve_exact', '::shrink_to_fit', '::shrink_to')
+
+
+def modifications(prog, sl, fns, elem_types, sites, allowed=()):
+    """calls in fns (and their closures) that receive a `&mut Vec<T>` (T in elem_types) and are not the recognised appends:
+    [(severity, Call)] — 'violated' when the argument is the collection built at one of `sites` (possibly one alternative of
+    it), 'unproven' when it is some other vector of that type"""
+    out, seen = [], set()
+    want = tuple('&mut std::vec::Vec<%s' % t for t in elem_types) + tuple('&mut [%s]' % t for t in elem_types)
+
+    def hits(v, d=0):
+        if d > 6:
+            return False
+        while v[0] in ('unwrap', 'updated'):
+            v = v[1]
+        if v[0] == 'phi':
+            return any(hits(x, d + 1) for x in v[1])
+        return site_of(v) in sites
+    for f in fns:
+        top = f
+        while top.kind == 'Closure' and top.parent in prog.fns:
+            top = prog.fns[top.parent]
+        for g in scope_fns(prog, top):
+            if g.path in seen:
+                continue
+            seen.add(g.path)
+            for c in g.calls:
+                if c.indirect or any(c is a for a in allowed):
+                    continue
+                for a in c.args:
+                    pl = op_place(a)
+                    if not pl or not g.local_ty(pl[0]).startswith(want):
+                        continue
+                    if is_transparent(c) or (c.name or '').endswith(HARMLESS_MUT):
+                        continue
+                    out.append(('violated' if hits(sl.operand(g, a)) else 'unproven', c))
+    return out
+
+
+# ---- failure of a call => failure of every public entry point that runs it ------------------------------------------
+LAZY = iters.LAZY_WITH_CLOSURE | TRANSPARENT_STAGES | iters.FEWER | iters.SAME | {IT + 'enumerate', IT + 'chain'}
+CLOSURE_RUNS_ON_OK = ('::and_then', '::map')
+
+
+def _pipeline_sink(prog, f, c):
+    """the consumer call the iterator produced by adapter call c ends in (through further lazy adapters), or None"""
+    for _ in range(12):
+        if not c.dest or len(c.dest) != 1:
+            return None
+        uses = [u for u in f.uses_of(c.dest[0]) if u[1] != 'drop']
+        if len(uses) != 1 or uses[0][1] != 'arg' or uses[0][2] != 0:
+            return None
+        n = f.call_at(uses[0][0])
+        if n is None or n.indirect:
+            return None
+        if n.decl in LAZY or is_transparent(n):
+            c = n
+            continue
+        return n if n.decl in iters.COLLECTING or n.decl in iters.CONSUME_ALL or n.decl in iters.CONSUME_EACH else None
+    return None
+
+
+def fails_on_error(prog, sl, fn, call):
+    """path-sensitive on the one value: when the Result produced by `call` is Err, fn cannot reach a success site — explored
+    from the call onwards without the edges that assert success of that very value (the Ok arm of a match on it, the
+    Continue arm of its `?`, seen through map_err / transpose)"""
+    from .lib.guards import _discr_info
+    here = (fn.path, call.bb)
+    if call.target is None:
+        return False
+
+    def about_call(v):
+        for _ in range(12):
+            if v[0] in ('updated',):
+                v = v[1]
+            elif v[0] == 'call' and v[2] and (v[1] in OK_PRESERVING or v[1] == TRY_BRANCH or v[1].endswith('::transpose')):
+                v = v[2][0]
+            else:
+                break
+        return site_of(v) == here
+    infeasible = set()
+    for sb, blk in enumerate(fn.blocks):
+        t = blk['t']
+        if t['t'] != 'switch':
+            continue
+        di = _discr_info(fn, sb, t['o'])
+        if not di:
+            continue
+        place, vmap, enum = di
+        if enum not in ('std::result::Result', 'std::ops::ControlFlow') or not about_call(sl.place(fn, place)):
+            continue
+        listed = [v for v, _ in t['targets']]
+        good = {v for v, n in vmap.items() if n in ('Ok', 'Continue')}
+        for v, tb in t['targets']:
+            if v in good:
+                infeasible.add((sb, tb))
+        if good and not (good & set(listed)) and all(v in listed for v in vmap if v not in good):
+            infeasible.add((sb, t['else']))     # the Ok arm is the `otherwise` edge
+    if not infeasible:
+        return False
+    sites = {st.bb for st in success_sites(fn)}
+    return not _reaches_end_avoiding(fn, call.target, set(), sites, infeasible)
+
+
+def success_implies(prog, call, sl=None, _seen=None, depth=0):
+    """(ok, why, failing call): whenever a public entry point that runs `call` succeeds, the Result produced by `call` was
+    Ok — at every level the value is `?`-ed / returned / matched with failing non-Ok arms (discard.ok_on_success, or
+    fails_on_error when a Slicer is given); a closure's result is the result of the and_then / map it is handed to, or an element of a short-circuiting collect"""
+    seen = _seen if _seen is not None else set()
+    f = call.fn
+    if depth > 14:
+        return False, 'call chain too deep at %s' % f.path, None
+    if not ok_on_success(prog, f, call) and not (sl is not None and fails_on_error(prog, sl, f, call)):
+        return False, 'the result of %s at %s is not required to be Ok for %s to succeed' % ((call.name or '?').split('::')[-1], call.where(), f.path.split('::')[-1]), call
+    if f.path in seen:
+        return True, None, None
+    seen.add(f.path)
+    if f.vis == 'pub' and f.kind != 'Closure':
+        return True, None, None
+    users = []
+    if f.kind == 'Closure':
+        parent = prog.fns.get(f.parent)
+        users = [(c, False) for c in (parent.calls if parent is not None else ()) if f in prog.fn_item_args(c)]
+    else:
+        for c in prog.callers().get(f.path, []):
+            if (c, c.name == f.path) not in users:
+                users.append((c, c.name == f.path))
+    if not users:
+        return False, '%s is never called' % f.path, None
+    for c, direct in users:
+        if direct:
+            r = success_implies(prog, c, sl, seen, depth + 1)
+        else:
+            d = c.decl or ''
+            if d.startswith(('std::result::Result::', 'std::option::Option::')) and d.endswith(CLOSURE_RUNS_ON_OK):
+                r = success_implies(prog, c, sl, seen, depth + 1)
+            elif d in LAZY:
+                sink = _pipeline_sink(prog, c.fn, c)
+                if sink is None or (not (sink.dty or '').startswith(('std::result::Result<', 'std::option::Option<')) and sink.decl not in (IT + 'try_for_each', IT + 'try_fold')):
+                    return False, 'the results of %s are elements of a pipeline at %s that does not stop at the first failure' % (f.path.split('::')[-1], c.where()), None
+                r = success_implies(prog, sink, sl, seen, depth + 1)
+            else:
+                return False, '%s is handed to %s at %s' % (f.path.split('::')[-1], c.name, c.where()), None
+        if not r[0]:
+            return r
+    return True, None, None
